@@ -138,7 +138,7 @@ def run(ck):
                 kk = "%s/%s" % (x["kind"], x["ctx"])
                 kinds[kk] = kinds.get(kk, 0) + 1
         else:
-            key = json.dumps([c["fault"], c["conns"], c.get("hold"), c.get("front_closed"), c.get("queued_at_release")])
+            key = json.dumps([c["fault"], c["conns"], c.get("hold"), c.get("front_closed")])
             trivial = c["conns"] == 0
             faults[c["fault"]] = faults.get(c["fault"], 0) + 1
         ck.count(c["stream"], key=key, trivial=trivial)
